@@ -113,7 +113,9 @@ class DetectVarNames( ast.NodeVisitor ):
                          f"doesn't make sense at line {input_node.lineno} of "
                          f"update block {self.upblk.__name__} in class {self.obj.__class__}." )
       elif isinstance( node, ast.Call ): # a.b().c()
-        # FIXME?
+        # The result of a call is not a named object, but the callee and
+        # its arguments may still read signals -- concat( s.a, s.b )[0:4]
+        self.visit( node )
         return None, None
       else:
         assert isinstance( node, ast.Str ) # filter out line_trace
@@ -218,7 +220,9 @@ class DetectVarNames( ast.NodeVisitor ):
       elif isinstance( node, ast.Name ):
         obj_name.append( (node.id, num[::-1]) )
       elif isinstance( node, ast.Call ): # a.b().c()
-        # FIXME?
+        # The result of a call is not a named object, but the callee and
+        # its arguments may still read signals -- concat( s.a, s.b )[0:4]
+        self.visit( node )
         return None, None
       else:
         assert isinstance( node, ast.Str ) # filter out line_trace
@@ -277,7 +281,9 @@ class DetectReadsWritesCalls( DetectVarNames ):
 
   def visit_Subscript( self, node ): # s.a.b[0:3] or s.a.b[0]
     obj_name, nodelist = self._get_full_name( node )
-    if not obj_name:  return
+    if not obj_name:
+      self.visit( node.slice ) # f( s.a )[ s.i : s.i+4 ] still reads s.i
+      return
 
     pair = (obj_name, nodelist, self.current_op)
 
@@ -292,9 +298,8 @@ class DetectReadsWritesCalls( DetectVarNames ):
 
   def visit_Call( self, node ):
     obj_name, nodelist = self._get_full_name( node.func )
-    if not obj_name:  return
-
-    self.calls.append( (obj_name, nodelist, None) )
+    if obj_name:
+      self.calls.append( (obj_name, nodelist, None) )
 
     for x in node.args:
       self.visit( x )
